@@ -293,12 +293,17 @@ def linSearch (f : Nat → Bool) : Nat → Nat → Nat
 def byteAt (acts : List Action) (i : Nat) : Int := (acts[i]?.map Action.byte).getD 0
 def countAt (acts : List Action) (i : Nat) : Int := (acts[i]?.map Action.count).getD 0
 
-/-- `GetNextActionFromIndex`: skip the actions whose count is exhausted. -/
+def nextFromFuel (acts : List Action) : Nat → Nat → Option (Nat × Int)
+  | 0, _ => none
+  | k + 1, i =>
+    match acts[i]? with
+    | none => none
+    | some a => if a.count = 0 then nextFromFuel acts k (i + 1) else some (i, a.byte)
+
+/-- `GetNextActionFromIndex`: skip the actions whose count is exhausted
+(`for ind < l && actions[ind].getCount() == 0 { ind++ }`; at most `l - ind` iterations). -/
 def nextFromIndex (acts : List Action) (i : Nat) : Option (Nat × Int) :=
-  if h : i < acts.length then
-    if acts[i].count = 0 then nextFromIndex acts (i + 1) else some (i, acts[i].byte)
-  else none
-termination_by acts.length - i
+  nextFromFuel acts (acts.length - i) i
 
 /-- `GetNextActionFromByte` (binary search as in the code). -/
 def nextFromByte (acts : List Action) (start : Int) : Option (Nat × Int) :=
@@ -384,48 +389,57 @@ def amount (len : Nat) (off : Int) (next : Option (Nat × Int)) : Int :=
   | some (_, nb) => if nb - off ≤ (len : Int) then nb - off else len
   | none => len
 
-/-- The `for len(b) > 0` loop of `Conn.Write`.  `valid` is the result of
-`CheckExistenceAndValidity` (constant during one call in a sequential history); `caps r + 1` is
-the smaller of the two buckets' remaining capacities in round `r` (the buckets only call back with
-a remaining capacity ≥ 1). -/
+/-- Result of one round of the loop. -/
+inductive StepRes
+  | cont (s : Loop) (b : Bytes)
+  | done (s : Loop) (st : Status)
+  deriving Repr, DecidableEq
+
+/-- One round of the `for len(b) > 0` loop of `Conn.Write` (`b` non-empty).  `valid` is the result
+of `CheckExistenceAndValidity` (constant during one call in a sequential history); `cap + 1` is the
+smaller of the two buckets' remaining capacities in this round (the buckets only call back with a
+remaining capacity ≥ 1). -/
+def stepLoop (valid : Bool) (cap : Nat) (s : Loop) (b : Bytes) : StepRes :=
+  let amt := amount b.length s.off s.next
+  if amt < 0 then .done s .panic       -- `b[:max]` with a negative bound
+  else
+    let m := min (cap + 1) amt.toNat
+    let s1 := { s with off := s.off + (m : Int), delivered := s.delivered ++ b.take m }
+    let b' := b.drop m
+    match s.next with
+    | none => .cont s1 b'
+    | some (ind, nb) =>
+      if s1.off ≥ nb then
+        if !valid then
+          -- the shapes were replaced: the rest goes through the default buckets, unshaped
+          .done { s1 with shaping := false, delivered := s1.delivered ++ b' } .ok
+        else
+          match s1.acts[ind]? with
+          | none => .done s1 .panic
+          | some a =>
+            if a.count ≠ 0 then
+              let acts' := s1.acts.set ind a.dec
+              match a.kind with
+              | .halt d =>
+                .cont { s1 with acts := acts', evs := s1.evs ++ [.sleep d s1.off],
+                                next := nextFromIndex acts' (ind + 1) } b'
+              | .close =>
+                .done { s1 with acts := acts', evs := s1.evs ++ [.forceClose s1.off] } .closed
+              | .bw x =>
+                .cont { s1 with acts := acts', evs := s1.evs ++ [.setCap x s1.off], cap := some x,
+                                next := nextFromIndex acts' (ind + 1) } b'
+            else
+              .cont { s1 with next := nextFromIndex s1.acts (ind + 1) } b'
+      else .cont s1 b'
+
+/-- The loop: round `r` gets the capacity `caps r`. -/
 def bodyLoop (valid : Bool) (caps : Nat → Nat) : Nat → Nat → Loop → Bytes → Loop × Status
   | 0, _, s, _ => (s, .fuel)
   | fuel + 1, r, s, b =>
     if b.isEmpty then (s, .ok)
-    else
-      let amt := amount b.length s.off s.next
-      if amt < 0 then (s, .panic)       -- `b[:max]` with a negative bound
-      else
-        let m := min (caps r + 1) amt.toNat
-        let s1 := { s with off := s.off + (m : Int), delivered := s.delivered ++ b.take m }
-        let b' := b.drop m
-        match s.next with
-        | none => bodyLoop valid caps fuel (r + 1) s1 b'
-        | some (ind, nb) =>
-          if s1.off ≥ nb then
-            if !valid then
-              -- the shapes were replaced: the rest goes through the default buckets, unshaped
-              ({ s1 with shaping := false, delivered := s1.delivered ++ b' }, .ok)
-            else
-              match s1.acts[ind]? with
-              | none => (s1, .panic)
-              | some a =>
-                if a.count ≠ 0 then
-                  let acts' := s1.acts.set ind a.dec
-                  match a.kind with
-                  | .halt d =>
-                    bodyLoop valid caps fuel (r + 1)
-                      { s1 with acts := acts', evs := s1.evs ++ [.sleep d s1.off],
-                                next := nextFromIndex acts' (ind + 1) } b'
-                  | .close =>
-                    ({ s1 with acts := acts', evs := s1.evs ++ [.forceClose s1.off] }, .closed)
-                  | .bw x =>
-                    bodyLoop valid caps fuel (r + 1)
-                      { s1 with acts := acts', evs := s1.evs ++ [.setCap x s1.off], cap := some x,
-                                next := nextFromIndex acts' (ind + 1) } b'
-                else
-                  bodyLoop valid caps fuel (r + 1) { s1 with next := nextFromIndex s1.acts (ind + 1) } b'
-          else bodyLoop valid caps fuel (r + 1) s1 b'
+    else match stepLoop valid (caps r) s b with
+      | .cont s' b' => bodyLoop valid caps fuel (r + 1) s' b'
+      | .done s' st => (s', st)
 
 /-- Enough fuel for every run (theorem `write_loop_terminates`). -/
 def fuelFor (b : Bytes) (acts : List Action) : Nat := b.length + acts.length + 1
